@@ -16,6 +16,11 @@ pub fn verif_dir() -> PathBuf {
         .unwrap_or_else(|_| PathBuf::from("/verif"))
 }
 
+/// Where evidence and replay files go (self-tests point this at a scratch dir).
+pub fn out_dir() -> PathBuf {
+    std::env::var("VERIF_OUT").map(PathBuf::from).unwrap_or_else(|_| verif_dir())
+}
+
 pub fn repo_dir() -> PathBuf {
     PathBuf::from(env!("ESPADA_REPO_DIR"))
 }
@@ -80,6 +85,24 @@ pub fn par_map<T: Send + 'static>(
     g.drain(..).map(|x| x.expect("slot filled")).collect()
 }
 
+/// Run `f` on a brand-new big-stack thread: every simulated case starts with
+/// pristine thread-local state, so what a case shows does not depend on which
+/// cases the batch worker ran before it (and a replay in a fresh process sees
+/// the same thing).
+pub fn fresh_thread<T: Send>(f: impl FnOnce() -> T + Send) -> T {
+    std::thread::scope(|s| {
+        std::thread::Builder::new()
+            .stack_size(BIG_STACK)
+            .spawn_scoped(s, f)
+            .expect("spawn case thread")
+            .join()
+            .unwrap_or_else(|_| {
+                eprintln!("HARNESS ERROR: a case thread panicked");
+                std::process::exit(2)
+            })
+    })
+}
+
 // ------------------------------------------------------------------ violations
 
 #[derive(Clone, Debug)]
@@ -108,7 +131,7 @@ impl Violation {
 }
 
 pub fn write_replay(v: &Violation) -> PathBuf {
-    let dir = verif_dir().join("replays");
+    let dir = out_dir().join("replays");
     let _ = std::fs::create_dir_all(&dir);
     let safe: String = v
         .key
@@ -293,7 +316,7 @@ impl Evidence {
             "wall_s": (wall * 1000.0).round() / 1000.0,
             "violations": fresh.len(),
         });
-        let dir = verif_dir().join("evidence");
+        let dir = out_dir().join("evidence");
         let _ = std::fs::create_dir_all(&dir);
         let path = dir.join(format!("{}.json", self.property));
         if let Err(e) = std::fs::write(&path, serde_json::to_string_pretty(&ev).unwrap()) {
